@@ -44,9 +44,13 @@ def _alphabet(folder):
     if len(pac_words) < 2 or len(tab_words) < 2 or not starter or len(other) < 2 or len(spec) < 2:
         raise AnalysisError("doubling: representative alphabet cannot be drawn from the tables")
     pick_other = [w for w in ("94ad", "942c", "942f") if w in other] or other[:2]
+    extended = folder.value(CONST, "EXTENDED_CHARS")
+    ext = sorted(extended)
+    if not isinstance(extended, dict) or len(ext) < 2:
+        raise AnalysisError("doubling: EXTENDED_CHARS does not fold")
     return {"P": pac_words[len(pac_words) // 2], "Q": pac_words[1], "T": tab_words[0], "U": tab_words[-1],
             "S": starter[-1], "R": starter[0], "C": pick_other[0], "D": pick_other[-1],
-            "M": spec[0], "N": spec[-1], "c": "c1c2", "d": "20c4"}
+            "M": spec[0], "N": spec[-1], "c": "c1c2", "d": "20c4", "E": ext[0], "F": ext[-1], "X": "94a1"}
 
 
 class Machine:
@@ -163,6 +167,15 @@ def run(ctx, report, clause="1", skip=()):
     for x in ("M", "C", "P", "S"):
         obligation("O-SEPARATED", f"{A[x]} . text . {A[x]}: only the immediately preceding word counts",
                    x + "c" + x, [False, False, False])
+    # extended characters and back-space are transmitted doubled only in streams whose control codes are
+    # doubled: the mode-setting code that opens the caption tells which kind of stream this is
+    for x, what in (("E", "extended character"), ("F", "extended character"), ("X", "back-space")):
+        obligation("O-EXT", f"doubled stream (mode code sent twice): a doubled {what} {A[x]} counts once",
+                   "SS" + x + x, [False, True, False, True])
+        obligation("O-EXT", f"single-coded stream (mode code sent once): two {what}s {A[x]} in a row are two",
+                   "S" + x + x, [False, False, False])
+        obligation("O-EXT", f"{what} . text . {what}: only the immediately preceding word counts",
+                   "SS" + x + "c" + x, [False, True, False, False, False])
     obligation("O-SEPARATED", "two different special characters in a row", "MN", [False, False])
     obligation("O-SEPARATED", "two different addresses in a row", "PQ", [False, False])
     report.count("doubling_sequences_evaluated", n_eval)
